@@ -210,7 +210,7 @@ func TestC19_P_FixtureGenerators(t *testing.T) {
 				de = testutil.GenerateFile(rec, ls, r, size)
 			case "UnixFSDirectory":
 				bw := rapid.SampledFrom([]int{0, 2, 4, 8}).Draw(t, "bitwidth")
-				dirname := rapid.SampledFrom([]string{"", "", "/sub", "/a/b c", "release-1.2", "/example.org", "/v1.0/data.d"}).Draw(t, "dirname")
+				dirname := rapid.SampledFrom([]string{"", "", "/sub", "/a/b c", "release-1.2", "/example.org", "/v1.0/data.d", "fixtures/", "./fixtures", "a//b", "/", "a/../b"}).Draw(t, "dirname")
 				opt = fmt.Sprintf("bitwidth=%d dirname=%q", bw, dirname)
 				opts := []testutil.Option{testutil.WithRandReader(r), testutil.WithShardBitwidth(bw)}
 				if dirname != "" {
@@ -358,7 +358,7 @@ func TestC19_P_UnixFSDirectoryManySeeds(t *testing.T) {
 		rec := &recT{}
 		// the directory may be generated below a named path (dots in it are ordinary characters), and the random source may
 		// fail once (any io.Reader can): then the generator may report the error, but a description it does return must hold
-		dirname := rapid.SampledFrom([]string{"", "", "", "/example.org", "rel-1.2", "/a.b/c.d"}).Draw(t, "dirname")
+		dirname := rapid.SampledFrom([]string{"", "", "", "/example.org", "rel-1.2", "/a.b/c.d", "x/", "./y"}).Draw(t, "dirname")
 		var src io.Reader = &detReader{s: seed}
 		flakyAt := 0
 		if which == "UnixFSDirectory" && rapid.IntRange(0, 3).Draw(t, "flakySource") == 0 {
